@@ -15,6 +15,20 @@ warnings.filterwarnings("ignore")
 
 _installed = False
 
+try:
+    from crosshair.tracers import NoTracing as _NoTracing
+except Exception:  # pragma: no cover
+    import contextlib
+    _NoTracing = contextlib.nullcontext
+
+
+def untraced(fn, *args, **kwargs):
+    """[decoder] harnesses: once the symbolic input has been realised nothing symbolic reaches the code
+    under test, so it is run natively (CrossHair's tracer off).  The solver's job is the exhaustive
+    enumeration of the inputs (models of the precondition), not the interpretation of this call."""
+    with _NoTracing():
+        return fn(*args, **kwargs)
+
 try:  # only present in the CrossHair overlay; replay runs under plain /venv/bin/python
     from crosshair import deep_realize as realize, IgnoreAttempt
 except Exception:  # pragma: no cover
@@ -141,6 +155,12 @@ def valid_tree(grammar, tree, allow_open: bool = True) -> bool:
                 return False
             continue
         labels = [c.value for c in children]
+        if not labels:
+            # the Earley parser renders an epsilon expansion as a nonterminal node with no children
+            # (the fuzzer as a single "" child); both are derivation trees of an empty alternative
+            if "" not in grammar[label]:
+                return False
+            continue
         ok = False
         for alt in grammar[label]:
             want = split_expansion(alt)
